@@ -227,7 +227,9 @@ func deriveContracts(
 		// b ends with a return
 		ret := retInstr.Results[0]
 		tables := newNilnessTableSet()
-		if r, ok := nilnessTableSetByBB[retInstr.Block()]; ok {
+		// A block that was visited without learning anything has an empty table set (only non-empty
+		// tables are saved), which stands for "nothing is known", exactly like a missing one.
+		if r, ok := nilnessTableSetByBB[retInstr.Block()]; ok && len(r) != 0 {
 			tables = r
 		} else {
 			tables, _ = add(tables, nilnessTable{})
